@@ -52,9 +52,11 @@ for c in spec['calls']:
         if 'init_args' in c:
             obj = f(*dec(c['init_args']), **dec(c.get('init_kwargs', {})))
             f = getattr(obj, c.get('method', '__call__'))
-        r = f(*dec(c.get('args', [])), **dec(c.get('kwargs', {})))
+        call_args = dec(c.get('args', []))
+        r = f(*call_args, **dec(c.get('kwargs', {})))
         if c.get('return_args'):
-            r = [r] + [dec(c['args'])[i] for i in c['return_args']]
+            # the (possibly mutated) argument objects of THIS call
+            r = [r] + [call_args[i] for i in c['return_args']]
         out.append({'ok': True, 'value': enc(r)})
     except BaseException as e:
         out.append({'ok': False, 'error': repr(e), 'type': type(e).__name__, 'trace': traceback.format_exc()[-1500:]})
